@@ -2,9 +2,24 @@
 
 package vsim
 
-import "runtime"
+import (
+	"runtime"
+	"unsafe"
+)
 
 const RaceEnabled = true
 
 func raceDisable() { runtime.RaceDisable() }
 func raceEnable()  { runtime.RaceEnable() }
+
+// runBarrier orders everything tasks did before their latest yield before the
+// simulator goroutine's next RaceBarrier call - and nothing else: tasks only
+// release into it, only the simulator goroutine acquires. It stands for the
+// process boundary between runs / agent incarnations (a new process in reality).
+var runBarrier int
+
+func raceReleaseToBarrier() { runtime.RaceReleaseMerge(unsafe.Pointer(&runBarrier)) }
+
+// RaceBarrier is called by the simulator goroutine before it starts a new run
+// or a new agent incarnation.
+func RaceBarrier() { runtime.RaceAcquire(unsafe.Pointer(&runBarrier)) }
